@@ -244,6 +244,14 @@ class FuncCtx:
             return base + ("->" if n.get("isArrow") else ".") + n["name"]
         if k == "UnaryOperator":
             op = n.get("opcode")
+            if op == "!":
+                # !(a < b) on integers is (a >= b); not for floating point (NaN)
+                c1 = self.resolve(ch[0]) if subst is None else strip(ch[0], casts=True)
+                if c1["kind"] == "BinaryOperator" and c1.get("opcode") in ("<", "<=", ">", ">=", "==", "!="):
+                    ts = [(strip(z, casts=True).get("type") or "") for z in kids(c1)]
+                    if not any(("double" in t_ or "float" in t_) for t_ in ts):
+                        flip = {"<": ">=", "<=": ">", ">": "<=", ">=": "<", "==": "!=", "!=": "=="}[c1["opcode"]]
+                        return "(%s %s %s)" % (self.canon(kids(c1)[0], depth, subst), flip, self.canon(kids(c1)[1], depth, subst))
             inner = self.canon(ch[0], depth, subst)
             if op == "&" and inner.startswith("*"):
                 return inner[1:]
